@@ -253,8 +253,16 @@ Proof.
 Qed.
 #[export] Hint Resolve good_dev_print : good.
 
-Lemma good_push_fields l : good (push_fields l).
+Lemma good_conv_fields l : good (conv_fields l).
 Proof. induction l as [|[v ty] l IH]; simpl; good_tac; try assumption. Qed.
+#[export] Hint Resolve good_conv_fields : good.
+
+Lemma good_push_all l : good (push_all l).
+Proof. induction l as [|[ty v] l IH]; simpl; good_tac; try assumption. Qed.
+#[export] Hint Resolve good_push_all : good.
+
+Lemma good_push_fields l : good (push_fields l).
+Proof. unfold push_fields. good_tac. Qed.
 #[export] Hint Resolve good_push_fields : good.
 
 Lemma good_input_loop fuel : forall prompt q sl types, good (input_loop fuel prompt q sl types).
